@@ -156,7 +156,9 @@ def lineage(
     scope_meta: dict[int, tuple[bool, dict[str, exp.Expr]]] = {}
 
     if column is not None:
-        column_name = normalize_identifiers.normalize_identifiers(column, dialect=dialect).name
+        column_name = normalize_identifiers.normalize_identifiers(
+            column if isinstance(column, str) else column.copy(), dialect=dialect
+        ).name
         if not any(select.alias_or_name == column_name for select in selectable.selects):
             raise SqlglotError(f"Cannot find column '{column_name}' in query.")
 
